@@ -5,7 +5,7 @@ import math
 import numpy as np
 from hypothesis import strategies as st
 
-from vf.core import Decline, Prop, Violation, case_hash, innermost_funsor_frame
+from vf.core import robust_gen, Decline, Prop, Violation, case_hash, innermost_funsor_frame
 from vf.gen import G, Opts, SeedSource, gen_expr
 from vf.lang import Oracle, OutOfDomain, ast_shrinks, binder_names, close, int_points, positions, replace_at, show, typeof, walk
 from vf.props.c01 import ast_signature
@@ -180,7 +180,7 @@ class C11(Prop):
     cases = {"quick": 1000, "thorough": 40000}
 
     def strategy(self, tier):
-        return st.one_of(st.integers(0, 2**40).map(gen_case), st.integers(0, 2**40).map(gen_case2), st.integers(0, 2**40).map(gen_case2))
+        return st.one_of(st.integers(0, 2**40).map(robust_gen(gen_case)), st.integers(0, 2**40).map(robust_gen(gen_case2)), st.integers(0, 2**40).map(robust_gen(gen_case2)))
 
     @staticmethod
     def has_binary_sum(case):
